@@ -709,3 +709,61 @@ theorem run_slowInv (c : Consts) (env : Env) (hq : Quiet env) (D E : Nat) (hb : 
     exact ih _ _ (turn_slowInv c env hq D E hb i p S N n t0 hS σ h)
 
 end Frappy.Poller
+
+namespace Frappy.Poller
+
+/-! ## the start-up round, for the refresh bound -/
+
+theorem initAll_step (env : Env) (hq : Quiet env) (i p : Nat) (is : List Nat) : ∀ σ evs,
+    Step i p σ (initAll env is σ evs).σ := by
+  induction is with
+  | nil => intro σ evs; exact Step.refl i p σ
+  | cons j is ih =>
+    intro σ evs
+    simp only [initAll]
+    split
+    · exact call_step env hq i p σ j .init
+    · exact (call_step env hq i p σ j .init).trans (ih _ _)
+
+theorem readAll_step (env : Env) (hq : Quiet env) (i p : Nat) (es : List Entry) : ∀ σ evs,
+    Step i p σ (readAll env es σ evs).σ := by
+  induction es with
+  | nil => intro σ evs; exact Step.refl i p σ
+  | cons e es ih =>
+    intro σ evs
+    simp only [readAll]
+    split
+    · exact call_step env hq i p σ e.1 (.read e.2)
+    · exact (call_step env hq i p σ e.1 (.read e.2)).trans (ih _ _)
+
+theorem waitEvent_step (env : Env) (hq : Quiet env) (i p : Nat) (σ : PollState) (timeout : Nat) :
+    Step i p σ (waitEvent env σ timeout) := by
+  obtain ⟨a, b, c⟩ := doWait_ghost env σ timeout
+  refine ⟨?_, ?_, ?_, waitEvent_toPoll env σ timeout, c⟩
+  · show σ.refreshed i p ≤ (doWait env σ timeout).refreshed i p
+    rw [b]; exact Nat.le_refl _
+  · intro h
+    show (doWait env σ timeout).stamp i p ≤ (doWait env σ timeout).refreshed i p
+    rw [a, b]; exact h
+  · rw [waitEvent_quiet env hq]
+
+theorem prologue_step (c : Consts) (env : Env) (hq : Quiet env) (i p : Nat) (σ : PollState) :
+    Step i p σ (prologue c env σ).σ := by
+  have h1 := initAll_step env hq i p (List.range σ.mods.length) σ []
+  unfold prologue
+  simp only
+  split
+  · exact h1.trans (waitEvent_step env hq i p _ _)
+  · have h2 := readAll_step env hq i p (allEntries 0 (initAll env (List.range σ.mods.length) σ []).σ.mods)
+      (initAll env (List.range σ.mods.length) σ []).σ (initAll env (List.range σ.mods.length) σ []).evs
+    split
+    · exact (h1.trans h2).trans (waitEvent_step env hq i p _ _)
+    · exact h1.trans h2
+
+theorem run_σ_indep (c : Consts) (env : Env) (k : Nat) : ∀ (σ : PollState) (evs : List Event),
+    (run c env k σ evs).σ = (run c env k σ []).σ := by
+  induction k with
+  | zero => intro σ evs; rfl
+  | succ k ih => intro σ evs; simp only [run]; rw [ih, ih _ ([] ++ _)]
+
+end Frappy.Poller
